@@ -10,7 +10,7 @@
 (*      MinCost equals the brute-force minimum over all injections         *)
 (*      (SelfSpec), so the oracle is not taken on trust.                   *)
 (***************************************************************************)
-EXTENDS Naturals, Integers, Sequences, FiniteSets, TLC
+EXTENDS Naturals, Integers, Sequences, FiniteSets, TLC, SequencesExt
 
 -----------------------------------------------------------------------------
 (* minimum total cost of matching every element of the smaller side; d[i][j] with i in 1..n rows, j in 1..m columns *)
@@ -41,8 +41,8 @@ DispatchOK(e) ==
       P == {<<vix(e.pairs[k][1]), rix(e.pairs[k][2])>> : k \in DOMAIN e.pairs}
       known == \A k \in DOMAIN e.pairs : (\E i \in DOMAIN e.veh : e.veh[i].id = e.pairs[k][1])
                                           /\ (\E j \in DOMAIN e.req : e.req[j].id = e.pairs[k][2])
-      Es == [k \in 1..Cardinality(E) |-> CHOOSE i \in E : Cardinality({x \in E : x < i}) = k - 1]
-      Os == [k \in 1..Cardinality(O) |-> CHOOSE j \in O : Cardinality({x \in O : x < j}) = k - 1]
+      Es == SetToSortSeq(E, LAMBDA a, b : a < b)      \* (CommunityModules, evaluated in Java: records with a thousand requests)
+      Os == SetToSortSeq(O, LAMBDA a, b : a < b)
       sub == [a \in DOMAIN Es |-> [b \in DOMAIN Os |-> e.dist[Es[a]][Os[b]]]]
       cost == LET RECURSIVE S(_)
                   S(Q) == IF Q = {} THEN 0 ELSE LET q == CHOOSE q \in Q : TRUE IN e.dist[q[1]][q[2]] + S(Q \ {q})
